@@ -5,10 +5,13 @@ line-protocol driver for C05 (format: see harness/mpi_c05.cc)
 
   c05 <P> <flags> <ign> <S> <T> <pay> <pol> <comm> <cont> <rounds> : s,r,g,l,attr,pub;...
 
-The driver builds the `System`, runs `interfaceOf`, `buildComm` and one `roundCallsAt` per rank and round
-(arrival and completion order = rank order; the theorems say the order is irrelevant), and applies the calls with
-a scatter policy that additionally tracks which entries the property leaves open (copy policy, several senders):
-such entries are printed as `*`, exactly as the harness does.
+The driver builds the `System`, runs `interfaceOf`, `Comm.build` (on the communicator object of the previous build
+when `<rounds>` contains `r…`/`n…` items) and one stateful `worldStep` per round — the buffers persist from one
+communication to the next and start as junk after every build (arrival and completion order = rank order; the
+theorems say the order is irrelevant) — and applies the calls with a scatter policy that additionally tracks
+which entries the property leaves open (copy policy, several senders): such entries are printed as `*`, exactly as
+the harness does.  A mask written `5a` denotes the same set as `5` (the harness realises it with other classes);
+the policy `cgs` (stock `CopyGatherScatter`) is the copy policy.
 -/
 open DV DV.C05
 
@@ -38,7 +41,7 @@ structure Cfg where
   add : Bool
   dt : Bool
   c1 : Bool
-  rounds : List Char
+  phases : List (Nat × Nat × List Char)   -- per build: S, T, the communications that follow
 
 def strictNat? (s : String) (lo hi : Nat) : Option Nat :=
   let cs := s.toList
@@ -66,9 +69,46 @@ def mkData (r c : Nat) (bs : List Nat) : Data :=
 
 structure RankSt where
   cont : Cont Data
+  b0 : List Val := []
+  b1 : List Val := []
   out : List String := []
 
 instance : Inhabited RankSt := ⟨{ cont := { c0 := [], c1 := [], one := true } }⟩
+
+/-- a mask, optionally followed by `a` (alternative realisation of the same set in the harness) -/
+def mask? (s : String) : Option Nat :=
+  let cs := s.toList
+  let cs := if cs.getLast? == some 'a' then cs.dropLast else cs
+  strictNat? (String.ofList cs) 0 15
+
+/-- `<rounds>`: items separated by `.`; a string over {f,b}, or `r<S>-<T>` / `n<S>-<T>` (build again) -/
+def parsePhases (S T : Nat) (rounds : String) : Option (List (Nat × Nat × List Char)) :=
+  if rounds.isEmpty || rounds.length > 60 then none else
+  let step (acc : Option (List (Nat × Nat × List Char))) (item : String) : Option (List (Nat × Nat × List Char)) :=
+    match acc with
+    | none => none
+    | some phs =>
+      let cs := item.toList
+      match cs with
+      | [] => none
+      | c :: rest =>
+        if c == 'r' || c == 'n' then
+          match (String.ofList rest).splitOn "-" with
+          | [a, b] =>
+            match mask? a, mask? b with
+            | some s', some t' => some (phs ++ [(s', t', [])])
+            | _, _ => none
+          | _ => none
+        else if cs.all (fun c => c == 'f' || c == 'b') then
+          match phs.getLast? with
+          | some (s', t', rd) => some (phs.dropLast ++ [(s', t', rd ++ cs)])
+          | none => none
+        else none
+  match (rounds.splitOn ".").foldl step (some [(S, T, [])]) with
+  | none => none
+  | some phs =>
+    let nComm := (phs.map fun p => p.2.2.length).sum
+    if nComm == 0 || nComm > 8 || phs.length > 4 then none else some phs
 
 def gatherD (whole : Bool) (d : Data) (l j : Nat) : Val :=
   let b := d.getD l []
@@ -127,7 +167,7 @@ def addEntries (cfg : Cfg) (segs : List String) : Option (Array (List Entry × L
 def parseCfg (ws : List String) : Option Cfg :=
   match ws with
   | ["c05", p, flags, ign, s, t, pay, pol, comm, cont, rounds] =>
-    match strictNat? p 1 64, strictNat? ign 0 1, strictNat? s 0 15, strictNat? t 0 15 with
+    match strictNat? p 1 64, strictNat? ign 0 1, mask? s, mask? t with
     | some P, some ign, some S, some T =>
       let fl := flags.toList
       if fl.length != P || !fl.all (fun c => c == '0' || c == '1') then none else
@@ -136,17 +176,17 @@ def parseCfg (ws : List String) : Option Cfg :=
         else if pay == "v0" then some (2, 0, 1) else if pay == "v1" then some (2, 1, 1) else if pay == "v2" then some (2, 2, 1)
         else if pay == "w0" then some (2, 0, 0) else if pay == "w1" then some (2, 1, 0) else if pay == "w2" then some (2, 2, 0)
         else none
-      let add? : Option Bool := if pol == "copy" then some false else if pol == "add" then some true else none
+      let add? : Option Bool :=
+        if pol == "copy" || pol == "cgs" then some false else if pol == "add" then some true else none
       let dt? : Option Bool := if comm == "buf" then some false else if comm == "dt" then some true else none
       let c1? : Option Bool := if cont == "c1" then some true else if cont == "c2" then some false else none
-      let rd := rounds.toList
-      match payk, add?, dt?, c1? with
-      | some (pay, vk, vbase), some add, some dt, some c1 =>
+      match payk, add?, dt?, c1?, parsePhases S T rounds with
+      | some (pay, vk, vbase), some add, some dt, some c1, some phases =>
         if dt && add then none else
-        if rd.isEmpty || rd.length > 6 || !rd.all (fun c => c == 'f' || c == 'b') then none else
+        if pol == "cgs" && (dt || pay == 2) then none else
         some { P := P, two := fl.map (· == '1'), ign := ign == 1, S := S, T := T, pay := pay, vk := vk, vbase := vbase, add := add, dt := dt,
-               c1 := c1, rounds := rd }
-      | _, _, _, _ => none
+               c1 := c1, phases := phases }
+      | _, _, _, _, _ => none
     | _, _, _, _ => none
   | _ => none
 
@@ -157,51 +197,75 @@ def run (cfg : Cfg) (sets : Array (List Entry × List Entry)) : String :=
   let P := cfg.P
   let sys : System :=
     { P := P, rank := fun r => let s := sets.getD r ([], []); { src := s.1, tgt := s.2, two := cfg.two.getD r false } }
-  let S := inMask cfg.S
-  let T := inMask cfg.T
   let whole := cfg.pay == 1
   let sz := if cfg.pay == 1 then 24 else 8
   let ranks := List.range P
-  let ifs := ranks.map fun p => interfaceOf cfg.ign S T sys p
-  let raw (p : Nat) : IfMap := rawInterfaceOf cfg.ign S T sys p
   let bsS := ranks.map fun p => blockSizes cfg (sys.rank p).src
   let bsT := ranks.map fun p => blockSizes cfg (sys.rank p).tgtSet
   let csOf (bs : List (List Nat)) (p : Nat) : Nat → Nat :=
     if cfg.pay == 2 then fun l => (bs.getD p []).getD l 1 else fun _ => 1
-  let comm (p : Nat) : Comm := buildComm sz (csOf bsS p) (csOf bsT p) (ifs.getD p [])
   let oneC (r : Nat) : Bool := cfg.c1 && !(cfg.two.getD r false)
-  let init : List RankSt := ranks.map fun r =>
-    { cont := { c0 := mkData r 0 (bsS.getD r []), c1 := mkData r 1 (bsT.getD r []), one := oneC r },
-      out := ["S " ++ showList (selection S (sys.rank r).src), showIf (ifs.getD r [])] }
-  -- is the derived-datatype variant free of overlapping receive buffers?
-  let useF := cfg.rounds.contains 'f'
-  let useB := cfg.rounds.contains 'b'
-  let feasible := ranks.all fun r =>
-    let m := ifs.getD r []
-    let snd := m.flatMap (·.2.1.idx)
-    let rcv := m.flatMap (·.2.2.idx)
-    !(useF && hasDup rcv) && !(useB && hasDup snd) && !(oneC r && snd.any rcv.contains)
+  let ifsOf (S T : Nat) : List IfMap := ranks.map fun p => interfaceOf cfg.ign (inMask S) (inMask T) sys p
+  -- is the derived-datatype variant free of overlapping receive buffers, in every phase?
+  let feasible := cfg.phases.all fun (S, T, rd) =>
+    let ifs := ifsOf S T
+    let useF := rd.contains 'f'
+    let useB := rd.contains 'b'
+    ranks.all fun r =>
+      let m := ifs.getD r []
+      let snd := m.flatMap (·.2.1.idx)
+      let rcv := m.flatMap (·.2.2.idx)
+      !(useF && hasDup rcv) && !(useB && hasDup snd) && !(oneC r && (useF || useB) && snd.any rcv.contains)
   let showD (c : Cont Data) : String :=
     "D " ++ showData c.c0 ++ (if c.one then "" else "|" ++ showData c.c1)
+  let S0 := cfg.S
+  let init : List RankSt := ranks.map fun r =>
+    { cont := { c0 := mkData r 0 (bsS.getD r []), c1 := mkData r 1 (bsT.getD r []), one := oneC r },
+      out := ["S " ++ showList (selection (inMask S0) (sys.rank r).src)] }
+  -- the communicator objects before their first build
+  let comm0 : List Comm := ranks.map fun p => buildComm sz (csOf bsS p) (csOf bsT p) []
   let fin : List RankSt :=
-    if cfg.dt && !feasible then init.map fun st => { st with out := "skip" :: st.out } else
-    cfg.rounds.foldl (init := init) fun sts dir =>
-      let fwd := dir == 'f'
-      -- the "written in this round" marks of the open-entry bookkeeping are reset; values are untouched
-      let w (p : Nat) : Cont Data :=
-        let c := (sts.getD p default).cont
-        { c with c0 := clearW c.c0, c1 := clearW c.c1 }
-      let posted (q : Nat) : List Nat := (comm q).postedRecvs fwd
-      ranks.map fun q =>
-        let st := sts.getD q default
-        let c' : Cont Data :=
+    if cfg.dt && !feasible then
+      init.zipIdx.map fun (st, r) =>
+        { st with out := "skip" :: (st.out ++ [showIf ((ifsOf cfg.S cfg.T).getD r [])]) }
+    else
+    let res := cfg.phases.zipIdx.foldl (init := (init, comm0)) fun (acc : List RankSt × List Comm) (ph, k) =>
+      let (sts, comms) := acc
+      let (S, T, rd) := ph
+      let ifs := ifsOf S T
+      let raw (p : Nat) : IfMap := rawInterfaceOf cfg.ign (inMask S) (inMask T) sys p
+      -- `build` on the communicator objects as the previous phase left them; fresh buffers with arbitrary content
+      let comms' : List Comm := ranks.map fun p =>
+        (comms.getD p (buildComm sz (csOf bsS p) (csOf bsT p) [])).build sz (csOf bsS p) (csOf bsT p) (ifs.getD p [])
+      let comm (p : Nat) : Comm := comms'.getD p (buildComm sz (fun _ => 1) (fun _ => 1) [])
+      let sts1 : List RankSt := sts.zipIdx.map fun (st, r) =>
+        { st with
+          b0 := List.replicate ((comm r).sendElems true) [],
+          b1 := List.replicate ((comm r).sendElems false) [],
+          out := if k == 0 then st.out ++ [showIf (ifs.getD r [])] else showIf (ifs.getD r []) :: st.out }
+      let sts2 := rd.foldl (init := sts1) fun sts dir =>
+        let fwd := dir == 'f'
+        -- the "written in this round" marks of the open-entry bookkeeping are reset; values are untouched
+        let w (p : Nat) : Cont Data :=
+          let c := (sts.getD p default).cont
+          { c with c0 := clearW c.c0, c1 := clearW c.c1 }
+        let posted (q : Nat) : List Nat := (comm q).postedRecvs fwd
+        let pst (p : Nat) : PState Val Data :=
+          let st := sts.getD p default
+          { cont := w p, b0 := st.b0, b1 := st.b1 }
+        ranks.map fun q =>
+          let st := sts.getD q default
           if cfg.dt then
             let gat (p : Nat) : Nat → Nat → Val := gatherD whole ((w p).get (!fwd))
             let calls := dtCalls ((comm q).csRecv fwd) gat (fun p => (comm p).csSend fwd) (dtNeighbours raw fwd q)
-            (w q).set fwd (applyCalls (scatterD whole cfg.add) ((w q).get fwd) calls)
+            let c' := (w q).set fwd (applyCalls (scatterD whole cfg.add) ((w q).get fwd) calls)
+            { st with cont := c', out := showD c' :: st.out }
           else
-            worldRound comm (gatherD whole) (scatterD whole cfg.add) [] fwd posted posted w q
-        { cont := c', out := showD c' :: st.out }
+            let st' := worldStep comm (gatherD whole) (scatterD whole cfg.add)
+              { fwd := fwd, arr := posted, order := posted } pst q
+            { cont := st'.cont, b0 := st'.b0, b1 := st'.b1, out := showD st'.cont :: st.out }
+      (sts2, comms')
+    res.1
   " ".intercalate (ranks.map fun r =>
     "r" ++ toString r ++ "{" ++ ";".intercalate ((fin.getD r default).out.reverse) ++ "}")
 
